@@ -193,7 +193,7 @@ def _to_float(x, kind):
 
 
 def build_fgg(ag, kind='real', dtype=None, *, rule_order=None, implicit_ids=False, value_perm=None,
-              finite_domains=False, patterned=None, with_interp=True):
+              finite_domains=False, patterned=None, with_interp=True, use_rule_ids=False):
     """Return (fgg, info) for the abstract grammar.  kind selects which weight table is used and
     how it is mapped to floats: real (w), log (ln w), mp (wmp, for the Viterbi semiring), bool.
     info['nodes'][ri] / info['edges'][ri] list the real Node/Edge objects of rule ri (AG order)."""
@@ -216,13 +216,19 @@ def build_fgg(ag, kind='real', dtype=None, *, rule_order=None, implicit_ids=Fals
         rhs = Graph()
         nodes = []
         for j, l in enumerate(r['nodes']):
-            v = Node(nl[l]) if implicit_ids else Node(nl[l], id=f'r{ri}v{j+1}')
+            if use_rule_ids:
+                v = Node(nl[l], id=(r['nid'][j] or None))
+            else:
+                v = Node(nl[l]) if implicit_ids else Node(nl[l], id=f'r{ri}v{j+1}')
             nodes.append(v)
             rhs.add_node(v)
         edges = []
         for k, e in enumerate(r['edges']):
-            ed = Edge(el[e['lab']], [nodes[a - 1] for a in e['att']],
-                      id=None if implicit_ids else f'r{ri}e{k+1}')
+            if use_rule_ids:
+                eid = r['eid'][k] or None
+            else:
+                eid = None if implicit_ids else f'r{ri}e{k+1}'
+            ed = Edge(el[e['lab']], [nodes[a - 1] for a in e['att']], id=eid)
             edges.append(ed)
             rhs.add_edge(ed)
         rhs.ext = [nodes[a - 1] for a in r['ext']]
